@@ -18,7 +18,8 @@ NT == Len(Tampers)
 
 (* the constant tables, once, for the python driver (a JSON object line) *)
 ASSUME PrintT(ToJson([committed |-> MCCommitted, legacy |-> LegacyCommitted,
-                      txfields |-> MCTxFields, ntampers |-> NT, targets |-> MCTargets]))
+                      txfields |-> MCTxFields, ntampers |-> NT, targets |-> MCTargets,
+                      inapkinds |-> InapMoves \cup InapAdds]))
 
 R(S) == {RandomElement(S)}
 CurV == Tampers[cursor][1]
@@ -77,4 +78,41 @@ Emit ==
   /\ hist' = <<>> /\ steps' = 0 /\ UNCHANGED cursor
 
 MBTNext == IF steps >= MaxSteps \/ ~TamperEnabled THEN Emit ELSE Step
+
+--------------------------------------------------------------------------------
+(* second generator (BlockVerify_siminap.cfg): inapplicable diffs.  Chains grow with blocks that
+   deploy contracts and declare classes (any version order the protocol allows, so that classes
+   declared under the old compiled class hash meet blocks that migrate them); at every position
+   the kind of inapplicable diff is drawn first, among the kinds that have a target for some
+   version and shape now, then the version and shape - kinds that need a long history are not
+   drowned by the others.  Blocks verified ahead and restarts are mixed in. *)
+InapEnabled ==
+  {t \in NextVersions \X MCShapes \X (InapMoves \cup InapAdds) :
+     LET c == <<Len(chain), t[2], t[1]>> IN CanGrow /\ HasTarget(t[3], c, Ent(c, state), state)}
+InapKindsNow == {t[3] : t \in InapEnabled}
+Inap ==
+  /\ InapEnabled # {}
+  /\ \E k \in R(InapKindsNow) : \E t \in R({u \in InapEnabled : u[3] = k}) : OfferInapplicable(t[1], t[2], t[3])
+
+SimNextInap ==
+  \/ Inap
+  \/ Inap
+  (* toward histories with migrations: a class-declaring block under the old compiled class hash
+     while there is none to migrate, then the block that migrates it *)
+  \/ IF Unmig(state) # {} THEN Offer(MCVersions[CasmV2From], "full")
+     ELSE HeadVIdx < CasmV2From /\ \E i \in R(HeadVIdx..(CasmV2From - 1)) : Offer(MCVersions[i], "full")
+  \/ \E v \in R(NextVersions), var \in R(MCShapes) : Offer(v, var)
+  \/ (steps > 0 /\ \E g \in R(BOOLEAN) : Restart(g))
+  \/ IF pending = {} \/ (Cardinality(pending) < MaxPending /\ RandomElement({TRUE, FALSE}))
+     THEN \E v \in R(NextVersions), var \in R(MCShapes) : VerifyAhead(v, var)
+     ELSE \E b \in R(pending) : StorePending(b)
+
+StepInap ==
+  /\ SimNextInap /\ UNCHANGED cursor
+  /\ steps' = steps + 1
+  /\ hist' = Append(hist, [a |-> act', res |-> res',
+                           chain |-> [i \in 1..Len(chain') |-> chain'[i].cid],
+                           height |-> db'.height])
+
+MBTNextInap == IF steps >= MaxSteps \/ ~CanGrow THEN Emit ELSE StepInap
 =============================================================================
